@@ -551,8 +551,6 @@ def _unroll_table_loops(tree: ast.Module) -> None:
                     and all(isinstance(r, ast.Tuple) for r in val.elts):
                 tables[tg] = val
     tables = {k: v for k, v in tables.items() if counts.get(k) == 1}
-    if not tables:
-        return
 
     def atom(e: ast.AST) -> bool:
         return isinstance(e, (ast.Constant, ast.Name)) or (isinstance(e, ast.Attribute) and atom(e.value))
@@ -587,14 +585,32 @@ def _unroll_table_loops(tree: ast.Module) -> None:
             self.methods.pop()
             return node
 
+        local_tables: List[Dict[str, ast.AST]] = []
+
         def visit_FunctionDef(self, node):  # type: ignore[no-untyped-def]
             stores = {x.id for x in ast.walk(node) if isinstance(x, ast.Name) and not isinstance(x.ctx, ast.Load)}
             stores |= {a.arg for a in node.args.posonlyargs + node.args.args + node.args.kwonlyargs}
             self.local_stores.append(stores)
+            # locals bound ONCE to a display of rows whose only use is being iterated by one for loop
+            lt: Dict[str, ast.AST] = {}
+            n_store: Dict[str, int] = {}
+            for x in ast.walk(node):
+                if isinstance(x, ast.Name) and not isinstance(x.ctx, ast.Load):
+                    n_store[x.id] = n_store.get(x.id, 0) + 1
+            for x in ast.walk(node):
+                if isinstance(x, ast.Assign) and len(x.targets) == 1 and isinstance(x.targets[0], ast.Name) and isinstance(x.value, (ast.Tuple, ast.List)) \
+                        and n_store.get(x.targets[0].id) == 1:
+                    nm_ = x.targets[0].id
+                    loads = [y for y in ast.walk(node) if isinstance(y, ast.Name) and y.id == nm_ and isinstance(y.ctx, ast.Load)]
+                    fors = [y for y in ast.walk(node) if isinstance(y, ast.For) and isinstance(y.iter, ast.Name) and y.iter.id == nm_]
+                    if len(loads) == 1 and len(fors) == 1:
+                        lt[nm_] = x.value
+            self.local_tables.append(lt)
             self.depth += 1
             self.generic_visit(node)
             self.depth -= 1
             self.local_stores.pop()
+            self.local_tables.pop()
             return node
 
         visit_AsyncFunctionDef = visit_FunctionDef
@@ -606,9 +622,24 @@ def _unroll_table_loops(tree: ast.Module) -> None:
             it = node.iter
             nm = it.id if isinstance(it, ast.Name) else (it.attr if isinstance(it, ast.Attribute) and isinstance(it.value, ast.Name)
                                                          and it.value.id in ("self", "cls") else None)
-            if nm is None or nm not in tables or (isinstance(it, ast.Name) and nm in self.local_stores[-1]):
+            tbl = None
+            if isinstance(it, (ast.Tuple, ast.List)):
+                tbl = it  # `for key, prefix, keep in ((..), (..)):`
+            elif isinstance(it, ast.Name) and it.id in self.local_tables[-1]:
+                tbl = self.local_tables[-1][it.id]  # a local bound once to a display of rows and used for this loop only
+            if tbl is not None:
+                def calm(e_: ast.AST) -> bool:
+                    return all(isinstance(x, (ast.Name, ast.Attribute, ast.Constant, ast.BinOp, ast.BitOr, ast.BitAnd, ast.Add, ast.Sub,
+                                              ast.Load, ast.Tuple, ast.operator)) for x in ast.walk(e_))
+                body_stores = {x.id for st in node.body for x in ast.walk(st) if isinstance(x, ast.Name) and not isinstance(x.ctx, ast.Load)}
+                if not (1 <= len(tbl.elts) <= 16 and all(isinstance(r, ast.Tuple) for r in tbl.elts) and len({len(r.elts) for r in tbl.elts}) == 1
+                        and all(calm(el) for r in tbl.elts for el in r.elts)
+                        and not any(isinstance(x, ast.Name) and x.id in body_stores for r in tbl.elts for el in r.elts for x in ast.walk(el))):
+                    return node
+            elif nm is None or nm not in tables or (isinstance(it, ast.Name) and nm in self.local_stores[-1]):
                 return node
-            tbl = tables[nm]
+            else:
+                tbl = tables[nm]
             tg = node.target
             if not (isinstance(tg, ast.Tuple) and all(isinstance(t, ast.Name) for t in tg.elts) and len(tg.elts) == len(tbl.elts[0].elts)):
                 return node
